@@ -90,5 +90,5 @@ class OptimizerConfig(ImmutableBaseModel):
         if (sep == "/") and (plugin == "" or method) == "":
             msg = f"malformed method specification: `{self.method}`"
             raise ValueError(msg)
-        self._mutable()
+        self._immutable()
         return self
